@@ -1,5 +1,6 @@
 """C02 -- a tensor's rank bookkeeping always mirrors its fibertree."""
 
+import collections
 import copy
 import io
 import os
@@ -32,7 +33,7 @@ ASSUMPTIONS = ["sub-fibers are never attached by hand (append / __setitem__ of a
                "histories continue on a transform result only while it keeps integer coordinates"]
 
 MUT = ["ref", "ref", "ref", "populate", "populate", "denseref", "assign", "clear", "positionRef"]
-TRANS = ["fromFiber_owned", "deepcopy", "splitUniform", "splitEqual", "splitNonUniform", "splitUnEqual", "swizzle", "swap",
+TRANS = ["setRoot", "fromFiber_owned", "deepcopy", "splitUniform", "splitEqual", "splitNonUniform", "splitUnEqual", "swizzle", "swap",
          "flatten_unflatten", "merge", "t_updateCoords", "t_updatePayloads", "yaml"]
 READ = ["eq", "union", "uncompress", "print", "format"]
 
@@ -46,7 +47,7 @@ def step(draw, default):
     o = {"op": k, "sel": draw(st.lists(st.integers(0, 9), min_size=4, max_size=4)),
          "mode": draw(st.integers(0, 11)), "val": draw(gen.nondefault_values(default)),
          "perm": draw(st.permutations([0, 1, 2, 3]))}
-    if k in ("eq", "union"):
+    if k in ("eq", "union", "setRoot"):
         o["src"] = draw(gen.trees([6, 6, 6], default, max_elems=3))
     return o
 
@@ -140,6 +141,21 @@ def do_transform(m, o, rec):
     depth = o["sel"][0] % d
     ids, shape = list(m.spec["rank_ids"]), list(m.shape)
     has_elems = len(t.getRoot().coords) > 0
+    if k == "setRoot":
+        # the tensor gets a new root (an unowned tree, or the root of another tensor): every rank must forget
+        # the fibers of the old tree
+        if getattr(m, "existing_only", False) or not int_coords(t) or any(not isinstance(i, str) for i in ids):
+            return None, ids, shape
+        tree = machine.cut_tree(o["src"], shape, d)
+        spec = {"rank_ids": ids, "shape": shape, "default": m.default, "tree": tree}
+        if o["mode"] % 2:
+            new_root = build.build_tensor(spec, "ref").getRoot()
+        else:
+            new_root = build.build_fiber(spec)
+        t.setRoot(new_root)
+        m.root = t.getRoot()
+        rec.cls("setRoot-on-populated", has_elems)
+        return None, ids, shape
     if k == "fromFiber_owned":
         # another tensor built from the root of this one gets a copy; this one must stay as it is
         r = Tensor.fromFiber(list(ids), t.getRoot(), shape=list(shape), default=m.default)
@@ -263,8 +279,35 @@ def do_read(m, o):
         with contextlib.redirect_stdout(io.StringIO()):
             t.print()
             repr(t)
-            for r in t.ranks:
-                str(r)
+            texts = [(str(r), repr(r)) for r in t.ranks]
+        # rank printing describes the live tree and nothing else: whatever the format, a tensor rebuilt from
+        # the same tree prints every rank with the same characters (the order of the fibers in a rank is
+        # not prescribed, so the texts are compared as multisets of characters)
+        # ... and shows every live fiber of the rank (white space aside, whatever the layout)
+        levels = observe.walk_levels(t.getRoot(), len(t.ranks))
+        for r, lv, (text, rtext) in zip(t.ranks, levels, texts):
+            squeezed = "".join(text.split())
+            need = collections.Counter("".join(f.__str__(cutoff=1000).split()) for f in lv)
+            for ftext, n in need.items():
+                if squeezed.count(ftext) < n:
+                    raise Violation("derived-print", f"rank {r.getId()} prints as {text!r}: the text of {n} live "
+                                    f"fiber(s) {ftext!r} occurs {squeezed.count(ftext)} time(s)")
+            need = collections.Counter(repr(f) for f in lv)
+            for ftext, n in need.items():
+                if rtext.count(ftext) < n:
+                    raise Violation("derived-print", f"rank {r.getId()} has repr {rtext!r}: the repr of {n} live "
+                                    f"fiber(s) {ftext!r} occurs {rtext.count(ftext)} time(s)")
+        if all(isinstance(i, str) for i in t.getRankIds()) and int_coords(t):
+            fresh = Tensor.fromFiber(list(t.getRankIds()), t.getRoot(), shape=list(m.shape), default=m.default)
+            verify(fresh, "tensor rebuilt from the root (for the printing comparison)")
+            if observe.tree_of(fresh.getRoot()) == observe.tree_of(t.getRoot()):
+                with contextlib.redirect_stdout(io.StringIO()):
+                    want = [(str(r), repr(r)) for r in fresh.ranks]
+                for r, got, exp in zip(t.ranks, texts, want):
+                    if collections.Counter(got[0]) != collections.Counter(exp[0]) or \
+                            collections.Counter(got[1]) != collections.Counter(exp[1]):
+                        raise Violation("derived-print", f"rank {r.getId()} prints as {got[0]!r} / {got[1]!r}; a tensor "
+                                        f"rebuilt from the same tree prints {exp[0]!r} / {exp[1]!r}")
     elif k == "format":
         derived(t, "Format query")
 
@@ -328,7 +371,7 @@ PARTS = [Part("history", cases(), check, n_quick=3000, n_thorough=15000)]
 def coverage_warnings(rec):
     n = max(1, rec.evaluations)
     out = []
-    for k, floor in (("history:populate-removal", 0.05), ("history:chain-insert", 0.05), ("history:mutated-transform-result", 0.2)):
+    for k, floor in (("history:populate-removal", 0.035), ("history:chain-insert", 0.05), ("history:mutated-transform-result", 0.2)):
         if rec.classes.get(k, 0) / n < floor:
             out.append(f"{k} only {rec.classes.get(k, 0)}/{n}")
     return out
